@@ -114,6 +114,54 @@ def damage_json(doc: dict, rng: random.Random) -> Optional[Tuple[str, Tuple]]:
     return None
 
 
+CTOR_CLASS = {"_construct_lang_string_set": "LangString", "_construct_value_list": "ValueList", "_construct_operation_variable": "OperationVariable",
+              "_construct_data_specification_iec61360": "DataSpecificationIEC61360", "_construct_external_reference": "ExternalReference",
+              "_construct_model_reference": "ModelReference"}
+
+
+def raising_class(e: BaseException) -> Optional[str]:
+    """class whose reader constructor was innermost on the stack when the root-cause exception was raised"""
+    while e.__cause__ is not None:
+        e = e.__cause__
+    tb = e.__traceback__
+    name = None
+    while tb is not None:
+        fn = tb.tb_frame.f_code.co_name
+        if fn.startswith("_construct_") and fn != "_construct_reference":
+            name = fn
+        tb = tb.tb_next
+    if name is None:
+        return None
+    return CTOR_CLASS.get(name) or "".join(w.capitalize() for w in name[len("_construct_"):].split("_"))
+
+
+def classes_along(T, kind, j, path):
+    """[(prefix length, class)] for every object on `path` inside JSON value j (table-directed, like wire_of_json)"""
+    out = []
+    cur, k = j, kind
+    for depth in range(len(path) + 1):
+        if isinstance(cur, dict) and k != "leaf" and k[0] in ("node", "poly"):
+            if k[0] == "node":
+                cls = k[1]
+            else:
+                tag = cur.get("modelType") if "modelType" in cur else cur.get("type")
+                cls = T.tag_to_cls.get(tag)
+            out.append((depth, cls))
+            if depth == len(path) or cls not in T.classes:
+                break
+            row = next((r for r in T.rows(cls) if r["member"] == path[depth]), None)
+            if row is None or not isinstance(cur, dict) or path[depth] not in cur:
+                break
+            cur, k = cur[path[depth]], row["kind"]
+        elif isinstance(cur, list) and k != "leaf" and k[0] == "list":
+            if depth == len(path) or not isinstance(path[depth], int) or path[depth] >= len(cur):
+                break
+            cur, k = cur[path[depth]], k[1]
+        else:
+            break
+    return out
+
+
 def root_cause(e: BaseException) -> str:
     while e.__cause__ is not None:
         e = e.__cause__
@@ -176,11 +224,13 @@ def correspond(ctx: C.Ctx, cov: C.Coverage) -> List[C.Disagreement]:
         # exception kind at the damaged position: strict read of the damaged identifiable alone
         listname, idx = path[0], path[1]
         single = {listname: [doc[listname][idx]]}
+        rcls = None
         try:
             read_json(single, False)
             k = None
         except Exception as e:
             k = root_cause(e)
+            rcls = raising_class(e)
         # wire of the damaged document, with the damaged position marked
         def build(mark_path):
             items_ = []
@@ -192,9 +242,12 @@ def correspond(ctx: C.Ctx, cov: C.Coverage) -> List[C.Disagreement]:
                     items_.append(w)
             return items_
         items = build(path[2:] if op not in ("delete", "unknowntype") else None)
-        # variant B: the exception is raised by the constructor of the object that contains the damaged member
-        parent = tuple(path[2:-1])
-        items_b = build(parent)
+        # variant B: the exception is raised inside the constructor named by the traceback (e.g. AASd-117 when the parent adds
+        # the element): mark the deepest object of that class on the path
+        rel = tuple(path[2:])
+        on_path = classes_along(T, poly, doc[listname][idx], rel)
+        cands = [d for d, c in on_path if c == rcls or (rcls == "LangString" and str(c).startswith("LangString"))]
+        items_b = build(rel[:cands[-1]] if cands else tuple(path[2:-1]))
         try:
             got = read_json(doc, True)
             r = ["ok", sorted((T.erase_flags(T.sort_unordered(T.to_val(o))) for o in got), key=json.dumps)]
